@@ -209,6 +209,7 @@ func newConcreteManifest(f *fs.Filesystem, apiClient *lfsapi.Client, operation, 
 		sshTransfer:          sshTransfer,
 	}
 
+	m.maxRetryDelay = -1
 	var tusAllowed bool
 	if git := apiClient.GitEnv(); git != nil {
 		if v := git.Int("lfs.transfer.maxretries", 0); v > 0 {
@@ -231,7 +232,7 @@ func newConcreteManifest(f *fs.Filesystem, apiClient *lfsapi.Client, operation, 
 	if m.maxRetries < 1 {
 		m.maxRetries = defaultMaxRetries
 	}
-	if m.maxRetryDelay < 1 {
+	if m.maxRetryDelay < 0 {
 		m.maxRetryDelay = defaultMaxRetryDelay
 	}
 
